@@ -356,6 +356,31 @@ func lastPositionType(v ssa.Value) (bool, string) {
 		}
 	case *ssa.UnOp:
 		return lastElem(x)
+	case *ssa.Parameter:
+		// a predicate helper `isErrorType(t)`: what every call site hands in
+		if pr := core.Active; pr != nil && pr.PrivateHelper(x.Parent()) {
+			idx := -1
+			for i, q := range x.Parent().Params {
+				if q == x {
+					idx = i
+				}
+			}
+			sites := pr.Callers(x.Parent())
+			if idx >= 0 && len(sites) > 0 {
+				why := ""
+				for _, s := range sites {
+					if idx >= len(s.Common().Args) {
+						return false, "call site shape"
+					}
+					ok, w := lastPositionType(s.Common().Args[idx])
+					if !ok {
+						return false, w
+					}
+					why = w
+				}
+				return true, why + " (through " + core.FuncName(x.Parent()) + ")"
+			}
+		}
 	}
 	return false, "compared value " + core.Path(v) + " is not recognisably the last result's type"
 }
